@@ -26,6 +26,7 @@ var vfResources = map[string]string{
 	"test.other":      `{"model":{"x":1}}`,
 	"test.parent":     `{"model":{"name":"parent","child":{"rid":"test.model"}}}`,
 	"test.collection": `{"collection":["a",{"rid":"test.model"}]}`,
+	"test.parent2":    `{"model":{"a":{"rid":"test.model"},"b":{"rid":"test.other"}}}`,
 }
 
 type vfReqKind struct {
@@ -305,4 +306,28 @@ func vfQuiescent(w *vfWorld) bool {
 		}
 	}
 	return true
+}
+
+// vfAnswerable applies the scheduling bounds of an instance to the list of
+// pending service requests: hold (get.test.other is answered only after the
+// last client request), window (only the oldest `window` pending requests may
+// be answered next) and tailfifo (once no client request or trigger is left,
+// answers are given oldest first).
+func vfAnswerable(pend []*vfRequest, moreExternal bool, clientLeft bool) []*vfRequest {
+	if zzvf.ParamOr("hold", 0) == 1 && clientLeft {
+		var p2 []*vfRequest
+		for _, q := range pend {
+			if q.subject != "get.test.other" {
+				p2 = append(p2, q)
+			}
+		}
+		pend = p2
+	}
+	if w := zzvf.ParamOr("window", 0); w > 0 && len(pend) > w {
+		pend = pend[:w]
+	}
+	if zzvf.ParamOr("tailfifo", 0) == 1 && !moreExternal && len(pend) > 1 {
+		pend = pend[:1]
+	}
+	return pend
 }
